@@ -131,6 +131,15 @@ fn make_fixture_once(dir: &str, seed: u64, which: u64, many: bool, attempt: u64)
             i += 1;
         }
     }
+    // a sample whose only contig is the reverse complement of the first sample's first contig:
+    // ragc stores it as the same segments with the orientation flag flipped, so queries through
+    // the two contigs reach the same stored segment in opposite orientations
+    let inv_name = if set.pansn { "ZINV#0".to_string() } else { "zinv".to_string() };
+    let inv_contig = if set.pansn { "ZINV#0#rc0".to_string() } else { "rc0 inverted copy".to_string() };
+    if !set.samples[0].contigs[0].1.is_empty() {
+        let rc = gen::revcomp(&set.samples[0].contigs[0].1);
+        set.samples.push(gen::Sample { name: inv_name.clone(), contigs: vec![(inv_contig.clone(), rc)] });
+    }
     let path = format!("{}/fx{}.agc", dir, which);
     match catch_unwind(AssertUnwindSafe(|| drive::create(&path, &set, &p))) {
         Ok(Ok(())) => {}
@@ -176,6 +185,30 @@ fn make_fixture_once(dir: &str, seed: u64, which: u64, many: bool, attempt: u64)
         Op::CompressionStats,
         Op::CloneThenList,
     ];
+    // ranges through other contigs, among them the inverted copy at the mirrored coordinates
+    // (the same stored segments, opposite orientation), and a second range on the first contig
+    {
+        let (a, b) = (flen / 3, flen.saturating_sub(1).max(1));
+        if set.samples.iter().any(|s| s.name == inv_name) {
+            ops.push(Op::GetRange(inv_name.clone(), inv_contig.clone(), flen.saturating_sub(b), flen.saturating_sub(a)));
+            ops.push(Op::GetRange(inv_name.clone(), inv_contig.clone(), 0, flen / 2 + 1));
+            ops.push(Op::GetContig(inv_name.clone(), inv_contig.clone()));
+            ops.push(Op::GetLength(inv_name.clone(), inv_contig.clone()));
+        }
+        ops.push(Op::GetRange(first.clone(), fc.clone(), 0, flen / 2 + 1));
+        let llen = set.samples.last().unwrap().contigs[0].1.len();
+        ops.push(Op::GetRange(last.clone(), lc.clone(), llen / 4, llen));
+        // the sample with the most contigs (its last one) and unknown contigs in the sample with
+        // the fewest: lookups that remember a position must not carry it across samples
+        let big = set.samples.iter().max_by_key(|s| s.contigs.len()).unwrap();
+        let small = set.samples.iter().min_by_key(|s| s.contigs.len()).unwrap();
+        let (bn, bc) = (big.name.clone(), big.contigs.last().unwrap().0.clone());
+        ops.push(Op::GetContig(bn.clone(), bc.clone()));
+        ops.push(Op::GetLength(bn, bc));
+        ops.push(Op::GetLength(small.name.clone(), "no such contig".into()));
+        ops.push(Op::GetContig(small.name.clone(), "no such contig".into()));
+        ops.push(Op::GetRange(small.name.clone(), "no such contig".into(), 0, 7));
+    }
     // reference segments: a few groups whose reference part is stored raw (metadata 0) and a
     // few whose reference is compressed - looked up through the container API
     let (mut raw_ref_ops, mut packed_ref_ops) = (0usize, 0usize);
